@@ -179,7 +179,7 @@ fn finish(u: &mut Unstructured<'_>) -> R<Finish> {
     Ok(match u.int_in_range(0u8..=5)? {
         0 | 1 | 2 => Finish::Respond { status: pick(u, &[200u16, 200, 404, 204, 304])?, body_len: pick(u, &[0usize, 3, 40, 1023, 1024, 1025, 9000])?, declared: u.ratio(3, 4)?, threshold: pick(u, &[None, None, Some(0usize), Some(usize::MAX)])? },
         3 => Finish::Drop,
-        4 => Finish::Writer { body_len: pick(u, &[0usize, 10, 1500])?, cuts: vec![u.int_in_range(0..=1023u16)?], flush_mask: u.arbitrary()?, zero_writes: u.ratio(1, 3)? },
+        4 => Finish::Writer { body_len: pick(u, &[0usize, 10, 1500])?, cuts: vec![u.int_in_range(0..=1023u16)?], flush_mask: u.arbitrary()?, zero_writes: u.ratio(1, 3)?, how: u.int_in_range(0..=3u8)? },
         _ => Finish::WriterUnused,
     })
 }
